@@ -137,7 +137,10 @@ def run_encodings(ctx, P):
             return CandleManager([], timeframe="T2")
         if host == "indicator":
             return build("EMA", dict(period=2), candles=[], timeframe="T2")
-        return Hexital("hx", [], [build("EMA", dict(period=2)), build("EMA", dict(period=2), timeframe="T2"), build("SMA", dict(period=2), timeframe="T3")])
+        # the same timeframe spelled three ways (upper / lower case, TimeFrame member) by different members
+        return Hexital("hx", [], [build("EMA", dict(period=2)), build("EMA", dict(period=2), timeframe="T2"), build("SMA", dict(period=2), timeframe="T3"),
+                                  build("WMA", dict(period=2), timeframe="t2"), build("RMA", dict(period=2), timeframe="enum:MINUTE"), build("HLA", dict(), timeframe="T1"),
+                                  build("TR", dict(), timeframe="enum:MINUTE")])
 
     def view(h):
         if host == "manager":
@@ -151,6 +154,15 @@ def run_encodings(ctx, P):
         ref.append(c)
     exp = view(ref)
     ctx.observe("reference", exp)
+    if host == "hexital":
+        # "delivers the same candle to every timeframe": every member's candle list is what a stand-alone manager of
+        # that member's timeframe builds from the same stream
+        ohlcv = lambda lst: [dict(ts=ctx.sec_of(c.timestamp), open=c.open, high=c.high, low=c.low, close=c.close, volume=c.volume) for c in lst]
+        for name, ind in ref.indicators.items():
+            alone = CandleManager([], timeframe=ind.timeframe)
+            for c in clone(cs):
+                alone.append(c)
+            ctx.equal(f"member {name}: its timeframe received every candle", ohlcv(ind.candles), ohlcv(alone.candles))
     labels = [l for l, _ in encodings(cs[0])]
     for li, label in enumerate(labels):
         h = make()
@@ -175,7 +187,7 @@ def _same(a, b):
 
 SELFCHECK = {"quick": 4, "thorough": 10}
 META = dict(
-    bounds=dict(quick="accessors: 17 read-only calls on an indicator and 13 on a Hexital (7 indicator kinds incl. dict-valued, helper-owning and analysis wrappers), each issued before every one of 3 appends and once at the end; encodings: 9 input forms x {CandleManager, Indicator, Hexital with three timeframes}, 4 candles",
+    bounds=dict(quick="accessors: 17 read-only calls on an indicator and 13 on a Hexital (7 indicator kinds incl. dict-valued, helper-owning and analysis wrappers), each issued before every one of 3 appends and once at the end; encodings: 9 input forms x {CandleManager, Indicator, Hexital with three timeframes}, 4 candles; the Hexital host has seven members on base/T1/T2/T3 with the timeframe spelled in upper case, lower case and as TimeFrame member, each member compared with a stand-alone manager of its timeframe",
                 thorough="n+1"),
     stubs=["exact real arithmetic, uninterpreted rounding and products", "concrete 1-minute timestamps"],
     assumptions=["'unchanged' = instance dict keys, simple attribute values, helper registries and the deep candle snapshot (OHLCV, timestamps, every stored reading as a term)"],
